@@ -164,7 +164,8 @@ pub struct OpStat {
 pub struct Violation {
     pub config: String,
     pub op: String,
-    pub regs: [String; 3],
+    /// the state the transition started from (register images / strings / bit patterns)
+    pub state: Vec<String>,
     pub aux: u64,
     pub expected: String,
     pub observed: String,
@@ -174,8 +175,13 @@ pub struct Violation {
 impl Violation {
     pub fn describe(&self) -> String {
         format!(
-            "{} {}(r0={}, r1={}, r2={}, aux={}) expected {} observed {}",
-            self.config, self.op, self.regs[0], self.regs[1], self.regs[2], self.aux, self.expected, self.observed
+            "{} {}({}; aux={}) expected {} observed {}",
+            self.config,
+            self.op,
+            self.state.join(", "),
+            self.aux,
+            self.expected,
+            self.observed
         )
     }
 }
@@ -348,6 +354,14 @@ impl Run {
         }
     }
 
+    /// like `wants`, for composite configuration names ("A->B"): --only matches the whole name or a prefix
+    pub fn wants_prefix(&self, config: &str) -> bool {
+        match &self.only_config {
+            Some(c) => config == c || config.starts_with(c.as_str()),
+            None => true,
+        }
+    }
+
     /// record a violation found by a custom engine (strings, floats, ...)
     pub fn record(&mut self, mut v: Violation) {
         if let Some(kf) = self.known_fn {
@@ -462,7 +476,7 @@ impl Run {
                             viols.push(Violation {
                                 config: T::type_name(),
                                 op: op.name.to_string(),
-                                regs: [regs[0].hex(), regs[1].hex(), regs[2].hex()],
+                                state: vec![regs[0].hex(), regs[1].hex(), regs[2].hex()],
                                 aux,
                                 expected: e.show(),
                                 observed: o.show(),
@@ -581,7 +595,7 @@ impl Run {
             all_viols.extend(viols);
         }
         // deterministic order whatever the thread interleaving
-        all_viols.sort_by(|x, y| (x.op.as_str(), x.regs.clone(), x.aux).cmp(&(y.op.as_str(), y.regs.clone(), y.aux)));
+        all_viols.sort_by(|x, y| (x.op.as_str(), x.state.clone(), x.aux).cmp(&(y.op.as_str(), y.state.clone(), y.aux)));
         for v in all_viols {
             self.record(v);
         }
@@ -670,7 +684,9 @@ impl Run {
         let mut exit = 0;
         std::fs::create_dir_all(&self.replay_dir).ok();
         for v in &self.violations {
-            let argv = vec![v.config.clone(), v.op.clone(), v.regs[0].clone(), v.regs[1].clone(), v.regs[2].clone(), v.aux.to_string()];
+            let mut argv = vec![v.config.clone(), v.op.clone()];
+            argv.extend(v.state.iter().cloned());
+            argv.push(v.aux.to_string());
             let key = format!("{}|{}|{}", self.profile_name(), argv.join("|"), self.property);
             let path = format!("{}/{:016x}.json", self.replay_dir, hash_str(&key));
             let j = J::obj(vec![
@@ -900,4 +916,139 @@ macro_rules! opp {
     ($name:expr, $arity:expr, $aux:expr, $spec:path, |$r:ident, $x:ident| $body:expr) => {
         $crate::engine::Op { name: $name, arity: $arity, aux: $aux, f: |$r, $x| $body, spec: $spec, pscope: true, heavy: false, panic_only: true }
     };
+}
+
+/// Statistics of a custom engine (casts, strings, floats, ...), accumulated per thread and merged
+/// into the run with `Run::merge`.
+#[derive(Default)]
+pub struct Local {
+    pub transitions: u64,
+    pub nontrivial: u64,
+    pub classes: u64,
+    pub values: HashSet<u64>,
+    pub samples: Vec<String>,
+    pub viols: Vec<Violation>,
+}
+
+impl Local {
+    /// compare one transition with its expectation
+    #[inline]
+    pub fn check<Z: ZNum>(&mut self, config: &str, op: &str, state: impl Fn() -> Vec<String>, aux: u64, e: &Expect<Z>, o: &Obs<Z>) {
+        if matches!(e, Expect::Skip) {
+            return;
+        }
+        self.transitions += 1;
+        let nt = e.nontrivial();
+        if nt {
+            self.nontrivial += 1;
+        }
+        self.classes |= 1u64 << (o.class() as u64 & 63);
+        if self.transitions <= 2048 && self.values.len() < VALUE_CAP {
+            self.values.insert(hash_str(&o.show()));
+        }
+        if (nt && self.samples.len() < 3) || self.samples.is_empty() {
+            self.samples.push(format!("{} {}({}; aux={}) -> {}", config, op, state().join(", "), aux, o.show()));
+        }
+        if !e.admits(o) && self.viols.len() < 100_000 {
+            self.viols.push(Violation {
+                config: config.to_string(),
+                op: op.to_string(),
+                state: state(),
+                aux,
+                expected: e.show(),
+                observed: o.show(),
+                known: None,
+            });
+        }
+    }
+    pub fn absorb(&mut self, o: Local) {
+        self.transitions += o.transitions;
+        self.nontrivial += o.nontrivial;
+        self.classes |= o.classes;
+        for v in o.values {
+            if self.values.len() < VALUE_CAP {
+                self.values.insert(v);
+            }
+        }
+        for s in o.samples {
+            if self.samples.len() < 3 {
+                self.samples.push(s);
+            }
+        }
+        self.viols.extend(o.viols);
+    }
+}
+
+impl Run {
+    /// merge the statistics of a custom engine for one (config, plan, op)
+    pub fn merge(&mut self, config: &str, plan: &str, op: &str, states: u64, l: Local) {
+        self.account(config, plan, op, states, l.transitions, l.nontrivial);
+        {
+            let g = self.ops.entry(op.to_string()).or_default();
+            g.classes |= l.classes;
+            for v in l.values {
+                if g.values.len() < VALUE_CAP {
+                    g.values.insert(v);
+                }
+            }
+            for s in l.samples {
+                if g.samples.len() < 3 {
+                    g.samples.push(s);
+                }
+            }
+        }
+        let mut viols = l.viols;
+        viols.sort_by(|x, y| (x.state.clone(), x.aux).cmp(&(y.state.clone(), y.aux)));
+        for v in viols {
+            self.record(v);
+        }
+    }
+    /// in replay mode: the recorded state if (config, op) is the replay target
+    pub fn replay_target(&mut self, config: &str, op: &str) -> Option<(Vec<String>, u64)> {
+        let r = self.replay.as_ref()?;
+        if r.len() >= 3 && r[0] == config && r[1] == op {
+            let aux = r[r.len() - 1].parse().unwrap_or(0);
+            let st = r[2..r.len() - 1].to_vec();
+            self.replay_done = true;
+            Some((st, aux))
+        } else {
+            None
+        }
+    }
+    pub fn in_replay(&self) -> bool {
+        self.replay.is_some()
+    }
+    /// print the verdict of a replayed custom transition
+    pub fn replay_verdict<Z: ZNum>(&self, e: &Expect<Z>, o: &Obs<Z>) {
+        println!("  expected: {}", e.show());
+        println!("  observed: {}", o.show());
+        if !matches!(e, Expect::Skip) && !e.admits(o) {
+            println!("REPRODUCED");
+        } else {
+            println!("NOT-REPRODUCED");
+        }
+    }
+}
+
+/// run `f(chunk_index, lo, hi)` over 0..n on all threads, merging the per-thread `Local`s
+pub fn par_chunks(threads: usize, n: usize, f: impl Fn(usize, usize, &mut Local) + Sync) -> Local {
+    let out = Mutex::new(Local::default());
+    let next = std::sync::atomic::AtomicUsize::new(0);
+    let chunk = (n / (threads.max(1) * 8)).max(1);
+    std::thread::scope(|s| {
+        for _ in 0..threads.max(1).min(n.max(1)) {
+            s.spawn(|| {
+                let mut l = Local::default();
+                loop {
+                    let lo = next.fetch_add(chunk, std::sync::atomic::Ordering::Relaxed);
+                    if lo >= n {
+                        break;
+                    }
+                    f(lo, (lo + chunk).min(n), &mut l);
+                }
+                out.lock().unwrap().absorb(l);
+            });
+        }
+    });
+    out.into_inner().unwrap()
 }
